@@ -139,7 +139,7 @@ edition = "2021"
 doctest = false
 
 [dependencies]
-rrtk = {{ path = "{repo}", default-features = false, features = [{features}] }}
+{rrtk_dep}
 {extra_deps}
 [workspace]
 
@@ -150,7 +150,7 @@ unexpected_cfgs = {{ level = "allow" }}
 
 class Crate:
     def __init__(self, prop_id, variant="main", features=("std", "devices", "dim_check_release"),
-                 extra_deps="", repo=None):
+                 extra_deps="", repo=None, rrtk_dep=None):
         self.prop_id = prop_id
         self.pkg = "vk_%s_%s" % (prop_id.lower(), variant)
         self.dir = os.path.join(WORK, prop_id, variant)
@@ -158,6 +158,7 @@ class Crate:
         self.features = features
         self.extra_deps = extra_deps
         self.repo = repo or REPO
+        self.rrtk_dep = rrtk_dep
         self.meta = {}
 
     def write(self, lib_rs, extra_files=None):
@@ -165,8 +166,8 @@ class Crate:
         os.makedirs(os.path.join(self.dir, ".cargo"), exist_ok=True)
         feats = ", ".join('"%s"' % f for f in self.features)
         _write_if_changed(os.path.join(self.dir, "Cargo.toml"),
-                          CARGO_TOML.format(pkg=self.pkg, repo=self.repo, features=feats,
-                                            extra_deps=self.extra_deps))
+                          CARGO_TOML.format(pkg=self.pkg, extra_deps=self.extra_deps,
+                                            rrtk_dep=self.rrtk_dep or 'rrtk = { path = "%s", default-features = false, features = [%s] }' % (self.repo, feats)))
         lock = os.path.join(self.repo, "Cargo.lock")
         if os.path.exists(lock):
             shutil.copy(lock, os.path.join(self.dir, "Cargo.lock"))
